@@ -22,6 +22,7 @@ import gc
 import json
 import os
 import struct
+import sys
 import zlib
 
 from harness.core import ll, pl
@@ -29,7 +30,7 @@ from harness.core import ll, pl
 PROP = "C10"
 THEOREMS = {"Artap.Props.C10": [
     "C10_from_to_dict", "C10_replace_id_spec", "C10_upsert_one_row_last_wins", "C10_row_count",
-    "C10_view_returns_last_sync", "C10_run_store_complete", "C10_problem_meta_roundtrip", "C10_jv_eqb_eq"]}
+    "C10_view_returns_last_sync", "C10_run_store_complete", "C10_problem_meta_roundtrip", "C10_reload_resync", "C10_jv_eqb_eq"]}
 AXIOMS_OK = []          # closed under the global context
 TRUSTED = [
     "Coq 8.16.1 kernel, vm_compute for model evaluation (no native_compute)",
@@ -57,7 +58,7 @@ HEADER = ("From Artap Require Import Run.C10Run.\nFrom Coq Require Import List Z
           "Definition PF (b : Z) := PNum (NFlt b).\nDefinition PN (z : Z) := PNum (NInt z).\n")
 
 STATES = ["empty", "in_progress", "evaluated", "failed"]
-STATE_CTOR = {"empty": "Empty", "in_progress": "InProgress", "evaluated": "Evaluated", "failed": "Failed"}
+STATE_CTOR = {"empty": "Empty", "in_progress": "InProgress", "evaluated": "Evaluated", "failed": "Failed", "loaded": "Loaded"}
 PROPERTY_FIELDS = ["vector", "costs", "costs_signed", "population_id", "custom", "features"]
 
 
@@ -215,6 +216,38 @@ def canon_feature(v):
     if isinstance(v, dict) and "t" in v:
         return ("list", tuple(canon_feature(x) for x in v["t"]))
     return canon(v)
+
+
+def plain(v, feature=False):
+    """the description of what json.loads gives back for a described value"""
+    if v is None or isinstance(v, (bool, int, str)):
+        return v
+    if isinstance(v, list):
+        return [plain(x, feature) for x in v]
+    if "f" in v or "nf" in v:
+        return {"f": v.get("f", v.get("nf"))}
+    if "t" in v:
+        return [plain(x, feature) for x in v["t"]]
+    if "a" in v:
+        return [{"f": h} for h in v["a"]]
+    if "ind" in v:
+        return v["ind"]
+    if "d" in v:
+        return [] if (feature and not v["d"]) else {"d": [[k, plain(x, feature)] for k, x in v["d"]]}
+    raise ValueError(v)
+
+
+def reload_desc(d):
+    """the individual that read_from_datastore (Individual.from_dict) rebuilds from the row of d: what a store opened in
+    write mode on an existing file puts into problem.individuals"""
+    return {"id": d["id"], "vector": plain(seq_items(d["vector"])), "costs": plain(seq_items(d["costs"])),
+            "costs_signed": plain(d["costs_signed"]), "state": "loaded", "population_id": plain(d["population_id"]),
+            "algorithm_id": plain(d["algorithm_id"]), "custom": plain(d["custom"]),
+            "features": [[k, plain(x, True)] for k, x in d["features"]], "parents": [], "children": []}
+
+
+def strip(d):
+    return {k: v for k, v in d.items() if k not in ("slot", "vector_alias", "costs_alias")}
 
 
 def wanted(d, field):
@@ -404,21 +437,58 @@ def rmeta(rng, degenerate=False):
 def gen_history(rng, degenerate=False):
     dim, m, case = rmeta(rng, degenerate)
     ids = rng.sample(IDS[:13], rng.randint(1, 5)) + (rng.sample(IDS[13:], rng.randint(0, 2)) if rng.random() < 0.3 else [])
-    pool = {i: rind(rng, i, ids, dim, m) for i in ids}
-    ops = []
-    for _ in range(rng.choice([0, 1, 2, 3, 4, 5, 6, 8, 10, 14])):
-        for i in ids:                   # data changes between the calls: last wins must be observable
+    pool = {}
+
+    def draw(i, slot=True):
+        d = rind(rng, i, ids, dim, m)
+        if slot:
+            d["slot"] = i
+        if i in pool and rng.random() < 0.4:    # the same design again with other data (as NSGA-II writes an individual twice)
+            keep = dict(pool[i])
+            for f in rng.sample(["costs", "population_id", "features", "custom", "parents", "children", "state"], rng.randint(1, 3)):
+                keep[f] = d[f]
+                if f == "costs":
+                    keep["costs_signed"] = d["costs_signed"]
+                    keep.pop("costs_alias", None)
+            if not slot:
+                keep.pop("slot", None)
+            return keep
+        others = [j for j in pool if j != i]
+        if others and rng.random() < 0.3:       # the same design vector as another individual (Individual.__eq__ is by vector)
+            o = rng.choice(others)
+            d["vector"] = pool[o]["vector"]
             if rng.random() < 0.5:
-                pool[i] = rind(rng, i, ids, dim, m)
+                d["vector_alias"] = o           # ... and the very same list object
+            if rng.random() < 0.3:              # NSGA-II's copy() shares the costs list with its original
+                d["costs"], d["costs_signed"] = pool[o]["costs"], pool[o]["costs_signed"]
+                d["costs_alias"] = o
+        return d
+
+    for i in ids:
+        pool[i] = draw(i)
+    ops = []
+    n_ops = rng.choice([0, 1, 2, 3, 4, 5, 6, 8, 10, 14]) if rng.random() < 0.9 else rng.choice([25, 40, 60])
+    reopen_at = rng.randrange(n_ops) if n_ops and not degenerate and rng.random() < 0.3 else None
+    reopened = False
+    for j in range(n_ops):
+        if j == reopen_at:
+            ops.append({"op": "reopen", "mode": "write" if rng.random() < 0.8 else "rewrite", "thread_safe": rng.random() < 0.7,
+                        "spec": rmeta(rng)[2]})
+            reopened = ops[-1]["mode"] == "write"
+            continue
+        for i in ids:                   # data changes between the calls: last wins must be observable
+            if rng.random() < (0.5 if n_ops <= 14 else 0.2):
+                pool[i] = draw(i)
         if rng.random() < 0.65:
             ops.append({"op": "sync", "ind": pool[rng.choice(ids)]})
         else:
             members = [pool[i] for i in ids if rng.random() < 0.7]
             rng.shuffle(members)
             if members and rng.random() < 0.25:     # the same id twice in problem.individuals, with different data
-                members.insert(rng.randrange(len(members) + 1), rind(rng, rng.choice(members)["id"], ids, dim, m))
-            ops.append({"op": "sync_all", "inds": members})
+                members.insert(rng.randrange(len(members) + 1), draw(rng.choice(members)["id"], slot=False))
+            ops.append({"op": "sync_all", "inds": members, "with_loaded": reopened and rng.random() < 0.7})
     case["ops"] = ops
+    case["reuse_objects"] = rng.random() < 0.7
     case["store"] = {"mode": rng.choice(["write", "write", "rewrite"]), "thread_safe": rng.random() < 0.7,
                      "pre": rng.choice(["none", "none", "empty", "stale"]), "destroy": rng.random() < 0.5}
     if case["store"]["pre"] == "stale":
@@ -441,23 +511,51 @@ def run(ctx):
     rng = ctx.rng
     _STR.clear()
 
-    def build(v):
-        """description -> the Python object handed to artap"""
+    # Harness-side stand-in for the sqlite3 module inside artap.datastore: the same connect with a short busy timeout.
+    # Nothing waits for a lock in these single-threaded histories unless the store is broken, and then sync_individual
+    # retries for ever (5 s per attempt, unbounded recursion); the recursion limit is lowered around store calls for the same reason.
+    import artap.datastore as ds_mod
+
+    class ShortTimeout:
+        def __getattr__(self, name):
+            return getattr(sqlite3, name)
+
+        def connect(self, *a, **kw):
+            kw.setdefault("timeout", 0.05)
+            return sqlite3.connect(*a, **kw)
+
+    ds_mod.sqlite3 = ShortTimeout()
+
+    class shallow:
+        def __enter__(self):
+            self.old = sys.getrecursionlimit()
+            sys.setrecursionlimit(min(self.old, 150))
+
+        def __exit__(self, *a):
+            sys.setrecursionlimit(self.old)
+
+    def saturated():
+        return len(ctx.oracle_failures) >= 40       # enough failing inputs: further cases add nothing
+
+    def build(v, live=None):
+        """description -> the Python object handed to artap; live: id -> Individual object to use for references"""
         if v is None or isinstance(v, (bool, int, str)):
             return v
         if isinstance(v, list):
-            return [build(x) for x in v]
+            return [build(x, live) for x in v]
         if "f" in v:
             return float.fromhex(v["f"])
         if "nf" in v:
             return np.float64(float.fromhex(v["nf"]))
         if "t" in v:
-            return tuple(build(x) for x in v["t"])
+            return tuple(build(x, live) for x in v["t"])
         if "a" in v:
             return np.array([float.fromhex(h) for h in v["a"]], dtype=np.float64)
         if "d" in v:
-            return {k: build(x) for k, x in v["d"]}
+            return {k: build(x, live) for k, x in v["d"]}
         if "ind" in v:
+            if live and v["ind"] in live:
+                return live[v["ind"]]
             x = Individual()
             x.id = v["ind"]
             return x
@@ -489,25 +587,29 @@ def run(ctx):
         raise ValueError("value outside the model: %r (%s)" % (x, type(x)))
 
     def describe_ind(ind):
-        st = Individual.to_string(ind.state)
+        st = ind.state.name.lower() if isinstance(ind.state, Individual.State) else "loaded"
         return {"id": ind.id, "vector": describe(ind.vector), "costs": describe(ind.costs), "costs_signed": describe(ind.costs_signed),
                 "state": st, "population_id": describe(ind.population_id), "algorithm_id": describe(ind.algorithm_id),
                 "custom": describe(ind.custom), "features": [[k, describe(v)] for k, v in ind.features.items()],
                 "parents": [describe(p) for p in ind.parents], "children": [describe(c) for c in ind.children]}
 
-    def make_ind(d):
+    OBJ_FIELDS = ["vector", "costs", "costs_signed", "state", "population_id", "algorithm_id", "custom", "features", "parents", "children"]
+
+    def set_field(ind, d, f, live):
+        if f == "state":
+            ind.state = Individual.State[d["state"].upper()]
+        elif f == "features":
+            ind.features = {k: build(v, live) for k, v in d["features"]}
+        elif f in ("parents", "children"):
+            setattr(ind, f, [build(p, live) for p in d[f]])
+        else:
+            setattr(ind, f, build(d[f], live))
+
+    def make_ind(d, live=None):
         ind = Individual()
         ind.id = d["id"]
-        ind.vector = build(d["vector"])
-        ind.costs = build(d["costs"])
-        ind.costs_signed = build(d["costs_signed"])
-        ind.state = Individual.State[d["state"].upper()]
-        ind.population_id = build(d["population_id"])
-        ind.algorithm_id = build(d["algorithm_id"])
-        ind.custom = build(d["custom"])
-        ind.features = {k: build(v) for k, v in d["features"]}
-        ind.parents = [build(p) for p in d["parents"]]
-        ind.children = [build(c) for c in d["children"]]
+        for f in OBJ_FIELDS:
+            set_field(ind, d, f, live)
         return ind
 
     class HProblem(Problem):
@@ -623,7 +725,9 @@ def run(ctx):
     cases, expected, meta = [], [], []
     hist = {"histories": 0, "degenerate_meta": 0, "ops": 0, "sync_individual": 0, "sync_all": 0, "individual_images": 0,
             "resynchronised_ids": 0, "rows": 0, "float_tokens": 0, "inf_tokens": 0, "numpy_scalars": 0, "individual_refs": 0,
-            "thread_safe": 0, "single_connection": 0, "rewrite": 0, "runs": {}, "run_rows": 0, "run_recorded": 0}
+            "thread_safe": 0, "single_connection": 0, "rewrite": 0, "reopened_in_write_mode": 0, "sync_all_with_reloaded": 0,
+            "long_lived_objects": 0, "shared_vectors": 0, "interleaved_pairs": 0, "longest_history": 0,
+            "runs": {}, "run_rows": 0, "run_recorded": 0}
 
     def census(d):
         s = json.dumps(d)
@@ -632,85 +736,207 @@ def run(ctx):
         hist["numpy_scalars"] += s.count('"nf":') + s.count('"a":')
         hist["individual_refs"] += s.count('"ind":')
 
-    def history_case(case, k):
-        path = os.path.join(ctx.work, "h_%05d.sqlite" % k)
-        st = case["store"]
-        if st["pre"] == "empty":
-            open(path, "w").close()
-        elif st["pre"] == "stale":      # a database of another problem, to be replaced in rewrite mode
-            HProblem.spec = {"name": "old", "description": "old", "params": [{"d": [["name", "zz"]]}], "costs": [{"d": [["name", "old"]]}]}
-            old = HProblem()
-            s0 = SqliteDataStore(old, database_name=path)
-            ghost = Individual([1.0])
-            ghost.id = case["ops"][0]["ind"]["id"] if case["ops"] and case["ops"][0]["op"] == "sync" else 424242
-            s0.sync_individual(ghost)
-            s0.destroy()
-            dispose(old)
-        HProblem.spec = case
-        problem = HProblem()
-        obs = None
-        store = None
-        try:
+    def note_mismatch(what, case, **kw):
+        if sum(1 for m in ctx.mismatches if m.get("correspondence") == "purity") < 10:
+            ctx.mismatches.append(dict({"what": what, "correspondence": "purity", "case": case}, **kw))
+
+    class Session:
+        """one store on one file, driven op by op (two sessions can be interleaved in one process)"""
+
+        def __init__(self, case, k):
+            self.case, self.k = case, k
+            self.path = os.path.join(ctx.work, "h_%05d.sqlite" % k)
+            self.store = self.problem = self.obs = None
+            self.objs, self.last = {}, {}          # slot -> live Individual object / the description it was last given
+            self.want, self.order = {}, []         # id -> description the row must hold; ids in table (first insertion) order
+            self.loaded, self.loaded_desc = [], []
+            self.spec = case
+            self.model_ops = []
+            self.n_img = 0
+            self.failed = False
+            self.reopens = 0
+
+        def open(self):
+            case, path, st = self.case, self.path, self.case["store"]
+            if st["pre"] == "empty":
+                open(path, "w").close()
+            elif st["pre"] == "stale":      # a database of another problem, to be replaced in rewrite mode
+                HProblem.spec = {"name": "old", "description": "old", "params": [{"d": [["name", "zz"]]}], "costs": [{"d": [["name", "old"]]}]}
+                old = HProblem()
+                s0 = SqliteDataStore(old, database_name=path)
+                ghost = Individual([1.0])
+                ghost.id = case["ops"][0]["ind"]["id"] if case["ops"] and case["ops"][0]["op"] == "sync" else 424242
+                s0.sync_individual(ghost)
+                s0.destroy()
+                dispose(old)
+            HProblem.spec = case
+            self.problem = HProblem()
             try:
-                store = SqliteDataStore(problem, database_name=path, mode=st["mode"], thread_safe=st["thread_safe"])
+                self.store = SqliteDataStore(self.problem, database_name=path, mode=st["mode"], thread_safe=st["thread_safe"])
+                self.problem.data_store = self.store
             except (sqlite3.IntegrityError, KeyError) as e:
-                obs = None
-                store = None
                 names = [dict(p["d"]).get("name") for p in case["params"]], [dict(c["d"]).get("name") for c in case["costs"]]
                 if all(None not in n and len(set(n)) == len(n) for n in names):
                     fail("the store cannot be created for a well-formed problem: %r" % (e,), case, "constructor raises")
-            if store is not None:
-                problem.data_store = store
-                for j, op in enumerate(case["ops"]):
-                    try:
-                        if op["op"] == "sync":
-                            store.sync_individual(make_ind(op["ind"]))
-                        else:
-                            problem.individuals = [make_ind(d) for d in op["inds"]]
-                            store.sync_all()
-                    except Exception as e:
-                        # a call that dies inside its transaction keeps the file locked while the frame is alive, and
-                        # sync_individual retries for ever on a locked file: stop this history here
-                        fail("store call %d (%s) raised %s: %s" % (j, op["op"], type(e).__name__, str(e)[:300]), case, "sync raises", op_index=j)
-                        break
-                gc.collect()        # frees the connection of a call that died inside its transaction (the traceback held it)
-                if st["destroy"]:
-                    store.destroy()
-                obs = read_back(path)
-                if not st["destroy"]:
-                    store.destroy()
-        finally:
-            dispose(problem)
-        want = {}
-        n_img = 0
-        for op in case["ops"]:
-            for d in ([op["ind"]] if op["op"] == "sync" else op["inds"]):
-                want[d["id"]] = d
-                n_img += 1
-        if store is not None:
-            oracle(case, obs, want, True)
-        cases.append(enc_case(case))
-        expected.append(enc_expected(obs))
-        meta.append(case)
-        hist["histories"] += 1
-        hist["degenerate_meta"] += store is None
-        hist["ops"] += len(case["ops"])
-        hist["sync_individual"] += sum(1 for o in case["ops"] if o["op"] == "sync")
-        hist["sync_all"] += sum(1 for o in case["ops"] if o["op"] == "sync_all")
-        hist["individual_images"] += n_img
-        hist["resynchronised_ids"] += n_img - len(want)
-        hist["rows"] += len(want) if store is not None else 0
-        hist["thread_safe" if st["thread_safe"] else "single_connection"] += 1
-        hist["rewrite"] += st["mode"] == "rewrite"
-        census(case["ops"])
-        ctx.count(("h", len(case["ops"]), n_img, len(want), st["mode"], st["thread_safe"], zlib.crc32(cases[-1].encode())),
-                  nontrivial=n_img > len(want) or n_img >= 2)
-        if 2 <= n_img <= 3 and n_img > len(want):
-            ctx.sample({"history": case})
-        try:
-            os.remove(path)
-        except OSError:
-            pass
+
+        def obj_for(self, d):
+            """the Python object for a described individual: a long-lived object per slot, updated where the description changed"""
+            slot = d.get("slot")
+            live = {i: o for i, o in self.objs.items()}
+            if slot is None or slot not in self.objs or not self.case.get("reuse_objects", True):
+                ind = make_ind(d, live)
+                prev = None
+            else:
+                ind, prev = self.objs[slot], self.last[slot]
+                ind.id = d["id"]
+                for f in OBJ_FIELDS:
+                    if prev[f] != d[f] or prev.get(f + "_alias") != d.get(f + "_alias"):
+                        set_field(ind, d, f, live)
+            for f in ("vector", "costs"):       # the same list object in two individuals
+                o = d.get(f + "_alias")
+                if o is not None and o in self.objs and self.last[o][f] == d[f] and (prev is None or prev[f] != d[f] or prev.get(f + "_alias") != o):
+                    setattr(ind, f, getattr(self.objs[o], f))
+                    if f == "costs":
+                        ind.costs_signed = self.objs[o].costs_signed
+            if slot is not None:
+                self.objs[slot], self.last[slot] = ind, d
+            return ind
+
+        def purity(self, j):
+            """a store call reads the individuals: afterwards every live object still is what its description says"""
+            for slot, ind in self.objs.items():
+                try:
+                    got = describe_ind(ind)
+                except Exception as e:
+                    got = {"undescribable": repr(e)}
+                if got != strip(self.last[slot]):
+                    diff = [f for f in got if got.get(f) != strip(self.last[slot]).get(f)]
+                    note_mismatch("store call %d modified individual %r (fields %r): the model's synchronisation only reads" % (j, slot, diff),
+                                  self.case, op_index=j)
+                    self.last[slot] = dict(got, slot=slot)
+                    return
+
+        def record(self, d):
+            if d["id"] not in self.want:
+                self.order.append(d["id"])
+            self.want[d["id"]] = d
+            self.n_img += 1
+
+        def step(self, j, op):
+            if self.store is None or self.failed:
+                return
+            case = self.case
+            try:
+                if op["op"] == "reopen":
+                    self.store.destroy()
+                    dispose(self.problem)
+                    gc.collect()
+                    HProblem.spec = op["spec"]
+                    self.problem = HProblem()
+                    self.store = SqliteDataStore(self.problem, database_name=self.path, mode=op["mode"], thread_safe=op["thread_safe"])
+                    self.problem.data_store = self.store
+                    self.reopens += 1
+                    if op["mode"] == "rewrite":
+                        self.want, self.order, self.loaded, self.loaded_desc = {}, [], [], []
+                        self.spec, self.model_ops = op["spec"], []
+                    else:
+                        self.loaded = list(self.problem.individuals)
+                        self.loaded_desc = [reload_desc(self.want[i]) for i in self.order]
+                        got = sorted((describe_ind(x) for x in self.loaded), key=lambda d: d["id"])
+                        if got != sorted(self.loaded_desc, key=lambda d: d["id"]):
+                            note_mismatch("the individuals rebuilt when the file is opened again in write mode are not those the model reloads",
+                                          case, op_index=j, observed=json.dumps(got, default=str)[:600])
+                elif op["op"] == "sync":
+                    x = self.obj_for(op["ind"])
+                    with shallow():
+                        self.store.sync_individual(x)
+                    self.model_ops.append({"op": "sync", "ind": op["ind"]})
+                    self.record(op["ind"])
+                else:
+                    with_loaded = bool(op.get("with_loaded")) and bool(self.loaded)
+                    self.problem.individuals = (list(self.loaded) if with_loaded else []) + [self.obj_for(d) for d in op["inds"]]
+                    with shallow():
+                        self.store.sync_all()
+                    inds = (list(self.loaded_desc) if with_loaded else []) + list(op["inds"])
+                    self.model_ops.append({"op": "sync_all", "inds": inds})
+                    for d in inds:
+                        self.record(d)
+                self.purity(j)
+            except Exception as e:
+                # a call that dies inside its transaction keeps the file locked while the frame is alive, and
+                # sync_individual retries for ever on a locked file: stop this history here
+                fail("store call %d (%s) raised %s: %s" % (j, op["op"], type(e).__name__, str(e)[:300]), case, "sync raises", op_index=j)
+                self.failed = True
+
+        def close(self):
+            case, st = self.case, self.case["store"]
+            try:
+                if self.store is not None:
+                    gc.collect()        # frees the connection of a call that died inside its transaction (the traceback held it)
+                    if st["destroy"]:
+                        self.store.destroy()
+                    self.obs = read_back(self.path)
+                    if not st["destroy"]:
+                        self.store.destroy()
+            finally:
+                dispose(self.problem)
+            mcase = dict(case, name=self.spec["name"], description=self.spec["description"], params=self.spec["params"],
+                         costs=self.spec["costs"], ops=self.model_ops)
+            if self.store is not None:
+                oracle(dict(case, name=self.spec["name"], params=self.spec["params"], costs=self.spec["costs"]), self.obs, self.want, True)
+            cases.append(enc_case(mcase))
+            expected.append(enc_expected(self.obs))
+            meta.append(case)
+            n_img, want = self.n_img, self.want
+            hist["histories"] += 1
+            hist["degenerate_meta"] += self.store is None
+            hist["ops"] += len(case["ops"])
+            hist["sync_individual"] += sum(1 for o in case["ops"] if o["op"] == "sync")
+            hist["sync_all"] += sum(1 for o in case["ops"] if o["op"] == "sync_all")
+            hist["reopened_in_write_mode"] += sum(1 for o in case["ops"] if o["op"] == "reopen" and o["mode"] == "write")
+            hist["sync_all_with_reloaded"] += sum(1 for o in case["ops"] if o["op"] == "sync_all" and o.get("with_loaded"))
+            hist["individual_images"] += n_img
+            hist["resynchronised_ids"] += n_img - len(want)
+            hist["rows"] += len(want) if self.store is not None else 0
+            hist["long_lived_objects"] += len(self.objs) if case.get("reuse_objects", True) else 0
+            hist["shared_vectors"] += sum(1 for o in self.model_ops for d in ([o["ind"]] if o["op"] == "sync" else o["inds"]) if d.get("vector_alias") is not None)
+            hist["thread_safe" if st["thread_safe"] else "single_connection"] += 1
+            hist["rewrite"] += st["mode"] == "rewrite"
+            hist["longest_history"] = max(hist["longest_history"], len(case["ops"]))
+            census(case["ops"])
+            ctx.count(("h", len(case["ops"]), n_img, len(want), st["mode"], st["thread_safe"], zlib.crc32(cases[-1].encode())),
+                      nontrivial=n_img > len(want) or n_img >= 2)
+            if 2 <= n_img <= 3 and n_img > len(want) and not self.reopens:
+                ctx.sample({"history": case})
+            for suffix in ("", "-journal"):
+                try:
+                    os.remove(self.path + suffix)
+                except OSError:
+                    pass
+
+    def history_case(case, k):
+        s1 = Session(case, k)
+        s1.open()
+        for j, op in enumerate(case["ops"]):
+            s1.step(j, op)
+        s1.close()
+
+    def history_pair(case_a, case_b, k):
+        """two stores on two files for two problems, alive in the same process, their calls interleaved"""
+        a, b = Session(case_a, k), Session(case_b, k + 1)
+        a.open()
+        b.open()
+        todo = [(a, j, op) for j, op in enumerate(case_a["ops"])]
+        other = [(b, j, op) for j, op in enumerate(case_b["ops"])]
+        merged = []
+        while todo or other:
+            src = todo if (todo and (not other or rng.random() < 0.5)) else other
+            merged.append(src.pop(0))
+        for sess, j, op in merged:
+            sess.step(j, op)
+        a.close()
+        b.close()
+        hist["interleaved_pairs"] += 1
 
     # ---- corpus first ------------------------------------------------------------------------------
     cdir = os.path.join(os.path.dirname(os.path.dirname(os.path.abspath(__file__))), "corpus", "C10")
@@ -723,10 +949,25 @@ def run(ctx):
                 history_case(case, k)
                 k += 1
     n_corpus = k
-    for _ in range(ctx.pick(240, 2000)):
+    for _ in range(ctx.pick(200, 1800)):
+        if saturated():
+            break
         history_case(gen_history(rng), k)
         k += 1
+    for _ in range(ctx.pick(20, 100)):
+        if saturated():
+            break
+        ca, cb = gen_history(rng), gen_history(rng)
+        if ca["ops"] and rng.random() < 0.7:        # the same individuals written to both stores
+            shared = [o for o in ca["ops"] if o["op"] != "reopen" and rng.random() < 0.7]
+            cb["ops"] = [o for o in cb["ops"] if o["op"] != "reopen"][:3] + shared
+            rng.shuffle(cb["ops"])
+            cb["reuse_objects"] = False             # (the objects of the other session carry its own descriptions)
+        history_pair(ca, cb, k)
+        k += 2
     for _ in range(ctx.pick(12, 120)):
+        if saturated():
+            break
         history_case(gen_history(rng, degenerate=True), k)
         k += 1
 
@@ -854,9 +1095,11 @@ def run(ctx):
 
             store.sync_individual, store.sync_all = rec_ind, rec_all
             try:
-                alg.run()
+                with shallow():
+                    alg.run()
             except Exception as e:
-                skipped[name] = "run raised %s: %s" % (type(e).__name__, str(e)[:200])
+                fail("complete run of %s raised %s: %s" % (name, type(e).__name__, str(e)[:200]), dict(case, ops=len(case["ops"])), "run raises")
+                gc.collect()
                 return
             final = [describe_ind(i) for i in problem.individuals]
             store.destroy()
@@ -893,6 +1136,8 @@ def run(ctx):
     k = 0
     for rep in range(ctx.pick(1, 6)):
         for name, m, mk in ALGS:
+            if saturated():
+                break
             n, g = (rng.choice([2, 3, 4]), rng.choice([2, 3])) if rep else (3, 2)
             run_case(name, m, mk, n, g, k)
             k += 1
